@@ -180,6 +180,22 @@ def check(ctx):
     rr = calls_named(gocr, "retry_request")
     ok = len(rr) == 1 and "GeckoStatusBlockProtocolHandler.full_request" in ast.unparse(rr[0][1]) and gocr.exit in gocr.reach_from(rr[0][0])
     ctx.ob("R7", "GeckoSpa._on_config_received->retry_request(full_request)", ok, "_on_config_received does not start the full status-block transfer", ocr.loc)
+    # the engine thread calls _final_connect unprotected: whatever it raises on must have been established before
+    # the status transfer (whose completion triggers it) is started
+    fcf0 = repo.func("GeckoSpa._final_connect")
+    need = set()
+    for n_ in ast.walk(fcf0.node):
+        if isinstance(n_, ast.If) and any(isinstance(x, ast.Raise) for x in n_.body):
+            for t_ in ast.walk(n_.test):
+                if isinstance(t_, ast.Compare) and len(t_.ops) == 1 and isinstance(t_.ops[0], ast.Is) and isinstance(t_.left, ast.Attribute) and isinstance(t_.left.value, ast.Name) and t_.left.value.id == "self":
+                    need.add(t_.left.attr)
+    for attr in sorted(need):
+        sets = [n_ for n_ in gocr.stmt_nodes() if isinstance(n_.ast, ast.Assign) and any(ast.unparse(t_) == f"self.{attr}" for t_ in n_.ast.targets)
+                and not (isinstance(n_.ast.value, ast.Constant) and n_.ast.value.value is None)]
+        ok = bool(rr) and bool(sets) and any(gocr.dom(s_, rr[0][0]) for s_ in sets)
+        ctx.ob("R4", f"GeckoSpa._on_config_received::{attr}::built-before-status-request", ok,
+               f"GeckoSpa._on_config_received starts the status-block transfer on a path where `self.{attr}` has not been built: if building it fails afterwards the handler exception is contained, "
+               f"but the completed transfer then makes the engine thread call _final_connect, which raises on `{attr} is None` outside any try - the engine stops", ocr.loc)
     lf = repo.func("GeckoSpa._loop_func")
     glf = cfg_of(lf)
     fcn = calls_named(glf, "_final_connect")
